@@ -254,12 +254,61 @@ impl Inspector<AnyDb> for AnyInsp {
     }
 }
 
+// F8: the trace sink of the EIP-3155 tracer fails. The tracer writes one JSON line per step
+// into a `Box<dyn Write>`; this writer returns an error, is interrupted, writes short or
+// writes nothing from its `at`-th write call on (armed per case through a thread-local, as
+// the tracer is built deep inside the system). Nothing of that may reach the execution.
+thread_local! {
+    static TRACE_FAULT: std::cell::Cell<Option<(u64, u8)>> = const { std::cell::Cell::new(None) };
+    static TRACE_WRITES: std::cell::Cell<(u64, u64)> = const { std::cell::Cell::new((0, 0)) };
+}
+/// `(at, kind)`: 0 error once, 1 Interrupted once, 2 short write once, 3 Ok(0) once,
+/// 4 error on every write from `at` on, 5 error from flush
+pub fn arm_trace_fault(f: Option<(u64, u8)>) {
+    TRACE_FAULT.with(|c| c.set(f));
+    TRACE_WRITES.with(|c| c.set((0, 0)));
+}
+/// (write calls seen, faults injected) since the last arming
+pub fn trace_write_stats() -> (u64, u64) {
+    TRACE_WRITES.with(|c| c.get())
+}
+pub struct FaultyWriter;
+impl std::io::Write for FaultyWriter {
+    fn write(&mut self, buf: &[u8]) -> std::io::Result<usize> {
+        let (n, faults) = TRACE_WRITES.with(|c| c.get());
+        TRACE_WRITES.with(|c| c.set((n + 1, faults)));
+        if let Some((at, kind)) = TRACE_FAULT.with(|c| c.get()) {
+            let hit = if kind == 4 { n >= at } else { n == at };
+            if hit && kind != 5 {
+                TRACE_WRITES.with(|c| c.set((n + 1, faults + 1)));
+                return match kind {
+                    1 => Err(std::io::Error::from(std::io::ErrorKind::Interrupted)),
+                    2 => Ok((buf.len() / 2).max(1).min(buf.len())),
+                    3 => Ok(0),
+                    _ => Err(std::io::Error::new(std::io::ErrorKind::Other, "simulated trace sink failure")),
+                };
+            }
+        }
+        Ok(buf.len())
+    }
+    fn flush(&mut self) -> std::io::Result<()> {
+        if let Some((at, 5)) = TRACE_FAULT.with(|c| c.get()) {
+            let (n, faults) = TRACE_WRITES.with(|c| c.get());
+            if n >= at {
+                TRACE_WRITES.with(|c| c.set((n, faults + 1)));
+                return Err(std::io::Error::new(std::io::ErrorKind::Other, "simulated flush failure"));
+            }
+        }
+        Ok(())
+    }
+}
+
 pub fn make_insp(kind: InspKind) -> AnyInsp {
     match kind {
         InspKind::None => AnyInsp::None,
         InspKind::NoOp => AnyInsp::NoOp(NoOpInspector),
         InspKind::Gas => AnyInsp::Gas(GasInspector::default()),
-        InspKind::Tracer => AnyInsp::Tracer(TracerEip3155::new(Box::new(std::io::sink()))),
+        InspKind::Tracer => AnyInsp::Tracer(TracerEip3155::new(Box::new(FaultyWriter))),
         InspKind::Monitor => AnyInsp::Monitor(Box::new(Monitor::default())),
     }
 }
